@@ -125,7 +125,24 @@ def run_path(world, it, ref, contract):
     exc = None
     locals_env = None
     try:
-        it.exec_block(fnode.body)
+        body = fnode.body
+        if contract.start_at:
+            k = next((i for i, n in enumerate(body) if _src(n).startswith(contract.start_at)), None)
+            if k is None:
+                raise Unsupported(f"start_at statement not found: {contract.start_at}")
+            it.assumptions.add(f"statements before `{contract.start_at}` are cut: the names and "
+                               "attributes they assign are arbitrary afterwards, their exceptions "
+                               "are not analysed here")
+            names, attrs, _calls = it.assigned_in(body[:k])
+            for nm in names:
+                st.env[nm] = it.fresh_dyn(nm)
+            me = st.env.get("self")
+            for a_ in attrs:
+                if isinstance(me, VObj):
+                    spec = world.field_spec(me.cls, a_) or "dyn"
+                    st.heap[(me.oid, a_)] = it.fresh(spec, a_)
+            body = body[k:]
+        it.exec_block(body)
         result = atom(None)
         locals_env = dict(st.env)
     except _Return as r:
